@@ -300,8 +300,51 @@ class FnFlow:
                             break
                         for pf in post_facts(s):
                             yield pf
+                        for pf in call_guard_facts(self.fn, s):
+                            yield pf
                         i -= 1
             cur = a
+
+
+PROG = None      # set by core.Check.program(): lets facts() look into small guard helpers that are called as statements
+
+
+def call_guard_facts(fn, s, depth=0):
+    """`check(a, b);` as a statement, where check's body is a sequence of `if (C) <always exits>` (a guard helper): after the call
+    every such C, with the helper's parameters replaced by the call's arguments, is false."""
+    if PROG is None or not isinstance(s, dict) or depth > 1:
+        return []
+    c = s
+    if c.get("k") in ("expr", "exprstmt") and isinstance(c.get("e"), dict):
+        c = c["e"]
+    c = strip_casts(c)
+    if not (isinstance(c, dict) and c.get("k") == "call" and c.get("fn") is not None):
+        return []
+    callee = PROG.fn_by_id(fn, c["fn"])
+    if callee is None or not callee.get("body") or callee is fn or not str(callee.get("file", "")).startswith("include/"):
+        return []
+    body = callee["body"]
+    stmts = body.get("s", []) if body.get("k") == "block" else [body]
+    if not stmts or len(stmts) > 6:
+        return []
+    args = [a for a in (c.get("args") or [])]
+    out = []
+    for st in stmts:
+        if not (st.get("k") == "if" and not st.get("constexpr")):
+            return []          # anything else in the helper: not a pure guard
+        for cond, truth in post_facts(st):
+            out.append((_subst_params(cond, args), truth))
+    return out
+
+
+def _subst_params(e, args):
+    if isinstance(e, list):
+        return [_subst_params(x, args) for x in e]
+    if not isinstance(e, dict):
+        return e
+    if e.get("k") == "ref" and e.get("rk") == "param" and isinstance(e.get("idx"), int) and e["idx"] < len(args):
+        return args[e["idx"]]
+    return {k: (_subst_params(v, args) if isinstance(v, (dict, list)) else v) for k, v in e.items()}
 
 
 def post_facts(s):
